@@ -2313,7 +2313,7 @@ static Boolean GetReg(tStrComp const* pArg, Word* Res) {
             *Res = 0x10;
         }
         ChkSpace(SegData, EvalResult.AddrSpaceMask);
-        EvalResult.OK = ChkRange(*Res, 0x10, 0x1f);
+        EvalResult.OK = ChkRange(*Res, 0x10, 0x18); /* AR0..AR7, SP */
         if (EvalResult.OK) {
             *Res -= 0x10;
         }
